@@ -69,18 +69,22 @@ func (x *Exec) Choose(n int, class string) int {
 		c = x.prefix[i]
 	}
 	eff := n
-	if b, has := x.budget[class]; has {
-		if x.dev[class] >= b {
-			eff = 1
+	bkey, hasBudget := class, false
+	if _, ok := x.budget[class]; ok {
+		hasBudget = true
+	} else if j := strings.Index(class, ":"); j > 0 {
+		if _, ok := x.budget[class[:j]]; ok {
+			bkey, hasBudget = class[:j], true
 		}
+	}
+	if hasBudget && x.dev[bkey] >= x.budget[bkey] {
+		eff = 1
 	}
 	if c >= eff {
 		hfail("replay divergence in %s: choice %d at point %d (class %s) but arity is %d", x.explore, c, i, class, eff)
 	}
-	if c != 0 {
-		if _, has := x.budget[class]; has {
-			x.dev[class]++
-		}
+	if c != 0 && hasBudget {
+		x.dev[bkey]++
 	}
 	x.trace = append(x.trace, choicePoint{c, eff, class})
 	if x.abortAt > 0 && len(x.trace) == x.abortAt {
